@@ -50,8 +50,35 @@ def handleSeq (specs vm hist : String) : String :=
     | none => "bad-op"
   | _, _ => "bad-op"
 
+def b01 (b : Bool) : String := if b then "1" else "0"
+
+/-- `c11 can <bc> <ca> <maxPathLen> <root> <len(chain)>` -/
+def handleCan (bc ca mpl root len : String) : String :=
+  match bc.toNat?, ca.toNat?, mpl.toInt?, root.toNat?, len.toNat? with
+  | some b, some a, some m, some r, some l =>
+    let c : Cert := { fp := 0, subj := 0, key := 0, iss := 0, isCA := a != 0, bcValid := b != 0, maxPathLen := m }
+    toString (canAddReason c (r != 0) l)
+  | _, _, _, _, _ => "bad-op"
+
+/-- `c11 async <specs> <verify-matrix> <start> <channel size> <ValidSignature before> <ops>` -/
+def handleAsync (specs vm start size before ops : String) : String :=
+  match parseCerts specs, parseMatrix vm with
+  | some cs, some m =>
+    match parseOps cs ops, start.toNat?.bind (nth? cs), size.toInt?, before.toNat? with
+    | some os, some c, some n, some bf =>
+      match run (verOf m) Graph.empty os with
+      | .ok g =>
+        let o := walkChainsAsync (verOf m) g c n (bf != 0)
+        "cap=" ++ toString o.cap ++ " vs=" ++ b01 o.validSig ++ " " ++ showChains o.chains
+      | _ => "panic"
+    | _, _, _, _ => "bad-op"
+  | _, _ => "bad-op"
+
 def handle (args : List String) : String :=
   match args with
+  | ["const"] => "maxIntermediateCount=" ++ toString maxIntermediateCount ++ " defaultChannelSize=" ++ toString (chanCap 0)
+  | ["can", bc, ca, mpl, root, len] => handleCan bc ca mpl root len
+  | ["async", specs, vm, start, size, before, ops] => handleAsync specs vm start size before ops
   | ["seq", specs, vm, hist] => handleSeq specs vm hist
   | [specs, vm, start, ops] =>
     match parseCerts specs, parseMatrix vm with
